@@ -30,6 +30,7 @@ type c07Case struct {
 	Constrain bool      `json:"constrain"` // use Selection.Constrain instead of Find("path?query")
 	Invalid  bool       `json:"invalid"`   // a parameter value is invalid: an error is expected
 	Via      dm.Path    `json:"via,omitempty"` // Find(path?query) is issued from this container with leading ../ steps
+	Raw      bool       `json:"raw,omitempty"` // parameter values are written as RFC 8040 shows them: ; / ( ) ! as they are
 }
 
 type leafRec struct {
@@ -181,10 +182,20 @@ func c07Keep(p c07Param, r leafRec) bool {
 	return true
 }
 
-func c07Query(params []c07Param) string {
+func c07Query(params []c07Param) string { return c07QueryAs(params, false) }
+
+// c07QueryAs writes the query; raw leaves the characters RFC 3986 allows in a query as they are (; / ( ) ! : ,), the way
+// RFC 8040 writes its examples, and percent-encodes only the rest.
+func c07QueryAs(params []c07Param, raw bool) string {
 	var parts []string
 	for _, p := range params {
-		parts = append(parts, p.Name+"="+url.QueryEscape(p.Value))
+		v := url.QueryEscape(p.Value)
+		if raw {
+			for _, ch := range []string{";", "/", "(", ")", "!", ":", ","} {
+				v = strings.ReplaceAll(v, url.QueryEscape(ch), ch)
+			}
+		}
+		parts = append(parts, p.Name+"="+v)
 	}
 	return strings.Join(parts, "&")
 }
@@ -294,7 +305,10 @@ func c07Run(c c07Case, o *hx.Obs) {
 		o.Excluded("unconstrained read fails (C04/C15 territory)")
 		return
 	}
-	query := c07Query(c.Params)
+	query := c07QueryAs(c.Params, c.Raw)
+	if c.Raw {
+		o.Class("query written raw")
+	}
 	got, text, gerr, panicked := read(query)
 	if panicked {
 		return
@@ -500,9 +514,10 @@ func c07Gen(t *rapid.T) c07Case {
 	if rapid.IntRange(0, 9).Draw(t, "invalid?") == 0 {
 		c.Invalid = true
 		bad := rapid.SampledFrom([]c07Param{{"depth", "0"}, {"depth", "x"}, {"depth", "-1"}, {"depth", "1.5"}, {"content", "bogus"}, {"content", ""}, {"with-defaults", "bogus"},
-			{"fc.range", "nobang"}, {"fc.range", "a!x-y"}, {"fc.range", "a!"}, {"fc.max-node-count", "x"}, {"fc.max-node-count", "-1"}}).Draw(t, "bad")
+			{"fc.range", "nobang"}, {"fc.range", "a!x-y"}, {"fc.range", "a!"}, {"fc.range", "a!1-2-3"}, {"fc.range", "a!-1"}, {"fc.range", "a!1--2"}, {"depth", "%zz"}, {"fc.max-node-count", "x"}, {"fc.max-node-count", "-1"}}).Draw(t, "bad")
 		c.Params = []c07Param{bad}
 	}
+	c.Raw = rapid.Bool().Draw(t, "raw")
 	return c
 }
 
@@ -532,6 +547,7 @@ type c07RangeCase struct {
 	Start  int        `json:"start"`
 	End    int        `json:"end"` // -1 = open
 	MaxNode int       `json:"maxNode"` // >= 0: test fc.max-node-count instead
+	Raw     bool      `json:"raw,omitempty"`
 }
 
 func countNodes(n *dm.Node, t dm.Tree) (containers, all int) {
@@ -655,7 +671,10 @@ func c07RangeRun(c c07RangeCase, o *hx.Obs) {
 		}
 		return false
 	}
-	query := "fc.range=" + url.QueryEscape(fmt.Sprintf("%s!%d-%s", sel, c.Start, endStr))
+	query := c07QueryAs([]c07Param{{"fc.range", fmt.Sprintf("%s!%d-%s", sel, c.Start, endStr)}}, c.Raw)
+	if c.End >= 0 && c.End < c.Start {
+		o.Class("inverted window")
+	}
 	got, text, gerr, panicked := read(query)
 	if panicked {
 		return
@@ -818,7 +837,11 @@ var c07Range = hx.Register(&hx.Check[c07RangeCase]{
 		c.Start = rapid.IntRange(0, 7).Draw(t, "start")
 		if rapid.IntRange(0, 3).Draw(t, "open?") > 0 {
 			c.End = c.Start + rapid.IntRange(0, 4).Draw(t, "len")
+			if c.Start > 0 && rapid.IntRange(0, 5).Draw(t, "inverted?") == 0 {
+				c.End = rapid.IntRange(0, c.Start-1).Draw(t, "end-before-start") // holds no row under either reading of the end bound
+			}
 		}
+		c.Raw = rapid.Bool().Draw(t, "raw")
 		return c
 	},
 	Run: c07RangeRun,
